@@ -56,9 +56,17 @@ def scope_pushers(prog):
         ptys = f.locals[1:f.arg_count + 1]
         if not any(t.replace("&mut ", "&") == "&" + SCOPESTACK for t in ptys):
             continue
-        if any((c.res or "").endswith("::push") for c in f.calls()):
+        # it allocates one new shared cell (a Vec slot `Arc<Mutex<Scope>>` or a
+        # list node `Arc<ScopeNode>`)
+        if any((c.declared or "") == "std::sync::Arc::<T>::new" for c in f.calls()):
             out.append(f)
     return out
+
+
+def pusher_appends(prog):
+    """True when the pushing constructor appends to a Vec (innermost scope =
+    last element); False when it links a new head node in front of the chain."""
+    return any((c.res or "").endswith("::push") for p in scope_pushers(prog) for c in p.calls())
 
 
 def scope_root_ctors(prog):
